@@ -1,21 +1,28 @@
 package props
 
 import (
+	"context"
 	"fmt"
 	"math/big"
 	"sort"
+	"strings"
+	"sync"
+	"time"
 
 	"github.com/DOSNetwork/core/share"
 	dkg "github.com/DOSNetwork/core/share/dkg/pedersen"
 	vss "github.com/DOSNetwork/core/share/vss/pedersen"
+	"github.com/dedis/kyber"
 	"github.com/dedis/kyber/sign/schnorr"
 
+	"verif/harness/doubles"
 	"verif/harness/hx"
 )
 
 func init() {
 	Registry["C05"] = func(r *hx.Rng, tier string, w *hx.Writer) error { return genDkgLib(r, tier, w, "C05") }
 	Registry["C04"] = func(r *hx.Rng, tier string, w *hx.Writer) error { return genDkgLib(r, tier, w, "C04") }
+	SubRegistry["c05-net"] = subC05Net
 }
 
 // one key-generation session at the level of DistKeyGenerator (share/dkg/pedersen/dkg.go)
@@ -572,6 +579,8 @@ func genDkgLib(rng *hx.Rng, tier string, w *hx.Writer, prop string) error {
 			s.put(w, prop, outs, "two-dealers-same-polynomial")
 		}
 	}
+	// ---- the same adversary against the real pipeline (pdkg.Grouping), one child process per session
+	genC05Net(rng, tier, w)
 	return nil
 }
 
@@ -767,4 +776,468 @@ func byzResp(s *dkgSess, b int, how string) dkgHooks {
 			return r, rd, true, how == "dup"
 		}
 	}}
+}
+
+// ---------------------------------------------------------------- C05 on the real pipeline
+//
+// n-1 real pdkg instances (Loop + Grouping, share/dkg/pedersen/pdkg*.go) over the in-memory network;
+// the remaining group member is Byzantine and is played by the harness with the public vss API: it
+// announces a key, deals (with a deviation towards its victims), answers the honest deals with
+// correct signed approvals, and records what every honest member broadcasts.  Judged (all of it is
+// safety, nothing depends on how long anything takes):
+//   * an honest member that finishes has broadcast an approval of the deal of EVERY other member
+//     ("a recipient that did not approve a deal does not finish");
+//   * a deal whose share does not lie on the commitments it travels with is not approved by its
+//     recipient;
+//   * the finishing honest members agree on one group key and each share lies on the public polynomial;
+//   * (kind "honest" only) with a well-behaved member every honest member finishes.
+
+var c05NetKinds = []string{
+	"honest",                // the member played by the harness follows the protocol
+	"share-plus-one",        // victim's share + 1
+	"share-random",          // victim's share replaced by a random scalar
+	"share-zero",            // victim's share replaced by 0
+	"share-of-other-member", // victim gets the value of the polynomial at another member's abscissa under its own index
+	"threshold-lowered",     // victim's deal announces another (valid) threshold; everything else unchanged
+	"foreign-session-id",    // victim's deal carries a session id that is not derived from its content
+	"wrong-index",           // victim gets another member's share, labelled with that member's index
+	"other-polynomial",      // victim gets a consistent deal of ANOTHER polynomial (equivocation)
+	"share-plus-one-to-all", // every honest member gets share + 1
+}
+
+type c05NetOut struct {
+	netOutcome
+	b            int
+	victims      []int
+	approvals    map[[2]int]int // [i, j] -> 1 approval / 0 complaint: what honest member i broadcast about dealer j's deal
+	inconsistent map[int]bool   // honest members whose deal from the Byzantine member does not verify against its commitments
+	script       string         // "" = the Byzantine member got through its whole script
+}
+
+func runC05NetSession(rng *hx.Rng, n int, kind string, sid string, timeout time.Duration) c05NetOut {
+	g2 := Bn.G2()
+	net := doubles.NewNetwork()
+	ids := make([][]byte, n)
+	pos := map[string]int{}
+	for i := range ids {
+		ids[i] = []byte(fmt.Sprintf("node-%02d-%s", i, sid))
+		pos[string(ids[i])] = i
+	}
+	b := rng.Intn(n)
+	var hon []int
+	for i := 0; i < n; i++ {
+		if i != b {
+			hon = append(hon, i)
+		}
+	}
+	t := n/2 + 1
+	out := c05NetOut{b: b, approvals: map[[2]int]int{}, inconsistent: map[int]bool{}}
+	out.finished, out.keys, out.shares = make([]bool, n), make([]string, n), make([]*dkg.DistKeyShare, n)
+	switch kind {
+	case "honest":
+	case "share-plus-one-to-all":
+		out.victims = append(out.victims, hon...)
+	default:
+		out.victims = []int{hon[rng.Intn(len(hon))]}
+	}
+	var mu sync.Mutex
+
+	// ---- the Byzantine member's endpoint: everything addressed to it is recorded
+	att := net.Add(ids[b])
+	inbox, _ := att.SubscribeMsg(4000, dkg.PublicKey{}, dkg.Deal{}, dkg.Responses{})
+	pubs := make([]kyber.Point, n)
+	gotDeals := map[int]*dkg.Deal{}
+	stop := make(chan struct{})
+	go func() {
+		for {
+			select {
+			case <-stop:
+				return
+			case m := <-inbox:
+				from, known := pos[string(m.Sender)]
+				if !known || from == b {
+					continue
+				}
+				mu.Lock()
+				switch c := m.Msg.Message.(type) {
+				case *dkg.PublicKey:
+					if c.Publickey != nil && int(c.Index) == from && pubs[from] == nil {
+						p := g2.Point()
+						if p.UnmarshalBinary(c.Publickey.Binary) == nil {
+							pubs[from] = p
+						}
+					}
+				case *dkg.Deal:
+					if int(c.Index) == from && gotDeals[from] == nil {
+						gotDeals[from] = c
+					}
+				case *dkg.Responses:
+					for _, r := range c.Response {
+						if r == nil || r.Response == nil || int(r.Response.Index) != from || int(r.Index) >= n {
+							continue
+						}
+						st := 0
+						if r.Response.Status == vss.StatusApproval {
+							st = 1
+						}
+						if old, seen := out.approvals[[2]int{from, int(r.Index)}]; !seen || st < old {
+							out.approvals[[2]int{from, int(r.Index)}] = st
+						}
+					}
+				}
+				mu.Unlock()
+			}
+		}
+	}()
+
+	// ---- the honest members: real pdkg instances
+	var wg sync.WaitGroup
+	cancels := make([]context.CancelFunc, n)
+	sessCtx, sessCancel := context.WithTimeout(context.Background(), timeout)
+	defer sessCancel()
+	t0 := time.Now()
+	for _, i := range hon {
+		ep := net.Add(ids[i])
+		d := dkg.VerifNewPDKG(ep, Bn, doubles.NopLogger{})
+		go func() {
+			defer func() {
+				if r := recover(); r != nil {
+					mu.Lock()
+					out.panicked = true
+					hx.LastPanic = fmt.Sprint(r)
+					mu.Unlock()
+				}
+			}()
+			d.Loop()
+		}()
+		wg.Add(1)
+		go func(i int) {
+			defer wg.Done()
+			// as in runNetSession: a member's context outlives its own result (its in-flight sends die with it)
+			ctx, cancel := context.WithTimeout(context.Background(), timeout)
+			mu.Lock()
+			cancels[i] = cancel
+			mu.Unlock()
+			outc, errc, err := d.Grouping(ctx, sid, ids)
+			if err != nil {
+				return
+			}
+			go func() {
+				for range errc {
+				}
+			}()
+			select {
+			case v, ok := <-outc:
+				if ok {
+					mu.Lock()
+					out.finished[i] = true
+					out.keys[i] = fmt.Sprintf("%x-%x-%x-%x", v[1], v[2], v[3], v[4])
+					out.shares[i] = dkg.VerifDistKeyShare(d, sid)
+					mu.Unlock()
+				}
+			case <-ctx.Done():
+			}
+		}(i)
+	}
+
+	// ---- the Byzantine member's script
+	waitFor := func(cond func() bool) bool {
+		for {
+			mu.Lock()
+			ok := cond()
+			mu.Unlock()
+			if ok {
+				return true
+			}
+			select {
+			case <-sessCtx.Done():
+				return false
+			case <-time.After(time.Millisecond):
+			}
+		}
+	}
+	sendTo := func(to int, m interface{}) {
+		switch c := m.(type) {
+		case *dkg.PublicKey:
+			att.Request(sessCtx, ids[to], c)
+		case *dkg.Deal:
+			att.Request(sessCtx, ids[to], c)
+		case *dkg.Responses:
+			att.Request(sessCtx, ids[to], c)
+		}
+	}
+	out.script = func() string {
+		bSec := g2.Scalar().Pick(Bn.RandomStream())
+		bPub := g2.Point().Mul(bSec, nil)
+		for _, i := range hon {
+			sendTo(i, &dkg.PublicKey{SessionId: sid, Index: uint32(b), Publickey: &vss.PublicKey{Binary: PtBytes(bPub)}})
+		}
+		if !waitFor(func() bool {
+			for _, i := range hon {
+				if pubs[i] == nil {
+					return false
+				}
+			}
+			return true
+		}) {
+			return "the honest members did not announce their keys"
+		}
+		mu.Lock()
+		all := append([]kyber.Point{}, pubs...)
+		mu.Unlock()
+		all[b] = bPub
+		dealer, err := vss.NewDealer(Bn, bSec, g2.Scalar().Pick(Bn.RandomStream()), all, t)
+		if err != nil {
+			return "NewDealer: " + err.Error()
+		}
+		other, err := vss.NewDealer(Bn, bSec, g2.Scalar().Pick(Bn.RandomStream()), all, t)
+		if err != nil {
+			return "NewDealer: " + err.Error()
+		}
+		isVictim := map[int]bool{}
+		for _, v := range out.victims {
+			isVictim[v] = true
+		}
+		for _, i := range hon {
+			from := dealer
+			pd, _ := dealer.PlaintextDeal(i)
+			if isVictim[i] {
+				// another honest member's abscissa (the Byzantine member's own if there is no other)
+				w := b
+				if len(hon) > 1 {
+					for w = hon[rng.Intn(len(hon))]; w == i; w = hon[rng.Intn(len(hon))] {
+					}
+				}
+				wd, _ := dealer.PlaintextDeal(w)
+				switch kind {
+				case "share-plus-one", "share-plus-one-to-all":
+					pd.SecShare.V = g2.Scalar().Add(pd.SecShare.V, g2.Scalar().One())
+				case "share-random":
+					pd.SecShare.V = Sc(g2, rng.BigBelow(BnQ), BnQ)
+				case "share-zero":
+					pd.SecShare.V = g2.Scalar().Zero()
+				case "share-of-other-member":
+					pd.SecShare.V = wd.SecShare.V.Clone()
+				case "threshold-lowered":
+					if t-1 >= 2 {
+						pd.T = uint32(t - 1)
+					} else {
+						pd.T = uint32(t + 1)
+					}
+				case "foreign-session-id":
+					pd.SessionID = rng.Bytes(len(pd.SessionID))
+				case "wrong-index":
+					pd.SecShare = &share.PriShare{I: wd.SecShare.I, V: wd.SecShare.V.Clone()}
+				case "other-polynomial":
+					from = other
+					pd, _ = other.PlaintextDeal(i)
+				}
+			}
+			// is the share the value, at the recipient's abscissa, of the polynomial committed to in this very deal?
+			pp := share.NewPubPoly(g2, g2.Point().Base(), pd.Commitments)
+			if pd.SecShare.I != i || !pp.Check(pd.SecShare) {
+				out.inconsistent[i] = true
+			}
+			enc, err := from.EncryptedDeal(i)
+			if err != nil {
+				return "EncryptedDeal: " + err.Error()
+			}
+			sendTo(i, &dkg.Deal{SessionId: sid, Index: uint32(b), Deal: enc})
+		}
+		if !waitFor(func() bool { return len(gotDeals) == len(hon) }) {
+			return "the honest members did not deal"
+		}
+		resps := &dkg.Responses{SessionId: sid}
+		for _, j := range hon {
+			ver, err := vss.NewVerifier(Bn, bSec, all[j], all)
+			if err != nil {
+				return "NewVerifier: " + err.Error()
+			}
+			mu.Lock()
+			d := gotDeals[j]
+			mu.Unlock()
+			r, err := ver.ProcessEncryptedDeal(d.Deal)
+			if err != nil {
+				return fmt.Sprintf("honest member %d's deal is not acceptable: %v", j, err)
+			}
+			if r.Status != vss.StatusApproval {
+				return fmt.Sprintf("honest member %d dealt a share that does not verify", j)
+			}
+			resps.Response = append(resps.Response, &dkg.Response{SessionId: sid, Index: uint32(j), Response: r})
+		}
+		for _, i := range hon {
+			sendTo(i, resps)
+		}
+		return ""
+	}()
+	wg.Wait()
+	out.wall = time.Since(t0)
+	// what a finished member broadcast travels in goroutines of its own: give it a moment to arrive
+	// before the contexts are cancelled (only ever waits when something is missing)
+	grace := time.Now().Add(1500 * time.Millisecond)
+	for time.Now().Before(grace) {
+		missing := false
+		mu.Lock()
+		for _, i := range hon {
+			for j := 0; j < n && out.finished[i]; j++ {
+				if _, seen := out.approvals[[2]int{i, j}]; j != i && !seen {
+					missing = true
+				}
+			}
+		}
+		mu.Unlock()
+		if !missing {
+			break
+		}
+		time.Sleep(10 * time.Millisecond)
+	}
+	mu.Lock()
+	for _, c := range cancels {
+		if c != nil {
+			c()
+		}
+	}
+	mu.Unlock()
+	close(stop)
+	return out
+}
+
+func judgeC05Net(rng *hx.Rng, n int, kind string, o c05NetOut) string {
+	if o.panicked {
+		return hx.Fail("dkg-panic", "a key-generation goroutine panicked: "+hx.LastPanic)
+	}
+	for i := 0; i < n; i++ {
+		if i == o.b {
+			continue
+		}
+		for j := 0; j < n; j++ {
+			if j == i {
+				continue
+			}
+			st, seen := o.approvals[[2]int{i, j}]
+			if o.finished[i] && !(seen && st == 1) {
+				what := "it broadcast no response to that deal"
+				if seen {
+					what = "it broadcast a complaint about that deal"
+				}
+				on := "on"
+				if ks := o.shares[i]; ks == nil || !share.NewPubPoly(Bn.G2(), Bn.G2().Point().Base(), ks.Commits).Check(ks.Share) {
+					on = "OFF"
+				}
+				return hx.Fail("finished-without-approving-a-deal", fmt.Sprintf("member %d of %d finished the key generation although it did not approve the deal it got from member %d (%s; Byzantine member %d, deviation %s towards %v; the share it finished with is %s its public polynomial)", i, n, j, what, o.b, kind, o.victims, on))
+			}
+			if j == o.b && o.inconsistent[i] && seen && st == 1 {
+				return hx.Fail("inconsistent-deal-approved", fmt.Sprintf("member %d approved a deal of member %d whose share does not verify against its commitments (deviation %s)", i, j, kind))
+			}
+		}
+	}
+	if v := judgeNet(rng, n, o.netOutcome, false); v != "ok" {
+		return v
+	}
+	if kind == "honest" {
+		for i := 0; i < n; i++ {
+			if i != o.b && !o.finished[i] {
+				return hx.Fail("honest-session-did-not-finish", fmt.Sprintf("every member followed the protocol and every message was delivered, but member %d of %d did not finish", i, n))
+			}
+		}
+	}
+	return "ok"
+}
+
+// arg kind=<deviation>,n=<members>,seed=<n>; prints "<verdict>|<finished honest members>|<victims that finished>"
+func subC05Net(arg string) string {
+	a := parseArg(arg)
+	rng := hx.NewRng(uint64(atoi(a["seed"])) + 505)
+	n, kind := atoi(a["n"]), a["kind"]
+	known := false
+	for _, k := range c05NetKinds {
+		known = known || k == kind
+	}
+	if !known || n < 3 {
+		return "FAIL:harness:no such scenario|0|0"
+	}
+	sid := fmt.Sprintf("%x", new(big.Int).Add(big.NewInt(int64(atoi(a["seed"]))), new(big.Int).SetBytes(rng.Bytes(8))))
+	// nothing judged depends on the deadline: a session in which somebody waits for a message that
+	// never comes simply lasts that long.  The honest run ends as soon as everybody has finished
+	timeout := 2500 * time.Millisecond
+	if kind == "honest" {
+		timeout = 12 * time.Second
+	}
+	if ms := atoi(a["ms"]); ms > 0 {
+		timeout = time.Duration(ms) * time.Millisecond
+	}
+	o := runC05NetSession(rng, n, kind, sid, timeout)
+	if o.script != "" && !o.panicked {
+		// the scenario did not take place (a starved machine): nothing was learnt, the parent runs it again
+		rigFail("the Byzantine member could not play its part: " + o.script)
+	}
+	fin, vfin := 0, 0
+	for _, f := range o.finished {
+		if f {
+			fin++
+		}
+	}
+	for _, v := range o.victims {
+		if o.finished[v] {
+			vfin++
+		}
+	}
+	return fmt.Sprintf("%s|%d|%d", judgeC05Net(rng, n, kind, o), fin, vfin)
+}
+
+func genC05Net(rng *hx.Rng, tier string, w *hx.Writer) {
+	type pick struct {
+		kind string
+		n    int
+	}
+	var picks []pick
+	if tier == "quick" {
+		// one batch of child processes (they run side by side)
+		picks = []pick{{"honest", 3}, {"share-plus-one", 3}, {"other-polynomial", 3},
+			{"share-random", 4}, {"threshold-lowered", 4}, {"share-of-other-member", 4},
+			{"share-zero", 5}, {"foreign-session-id", 5}}
+	} else {
+		for rep := 0; rep < 3; rep++ {
+			for _, k := range c05NetKinds {
+				for n := 3; n <= 5; n++ {
+					picks = append(picks, pick{k, n})
+				}
+			}
+		}
+	}
+	var jobs []*c12job
+	for _, p := range picks {
+		seed := 1 + rng.Intn(1<<20)
+		arg := fmt.Sprintf("kind=%s,n=%d,seed=%d", p.kind, p.n, seed)
+		job := &c12job{sub: "c05-net", arg: arg, timeout: 60 * time.Second, group: "key-generation",
+			c: hx.Case{Entry: "-", Op: 0, Args: hx.L(hx.Zi(p.n), hx.B([]byte(p.kind)), hx.Zi(seed)), Tags: []string{"pipeline", "byz-" + p.kind, fmt.Sprintf("n%d", p.n), "nt"}}}
+		verdict := "ok"
+		job.finish = func(out string) (string, bool) {
+			parts := strings.Split(out, "|")
+			if len(parts) != 3 {
+				verdict = hx.Fail("harness", "unexpected scenario output: "+out)
+				return hx.B([]byte(out)), false
+			}
+			verdict = parts[0]
+			return hx.L(hx.Zi(atoi(parts[1])), hx.Zi(atoi(parts[2]))), parts[0] == "ok"
+		}
+		job.explain = func(class, out, panicLine string) (string, string) {
+			sc := "driver sub c05-net " + arg
+			switch class {
+			case "P":
+				return "dkg-panic", "a key-generation goroutine panicked (" + sc + "): " + panicLine
+			case "H":
+				return "dkg-hang", "the networked session did not end (" + sc + ")"
+			}
+			v := strings.SplitN(strings.TrimPrefix(verdict, "FAIL:"), ":", 2)
+			if len(v) == 2 {
+				return v[0], v[1] + " (" + sc + ")"
+			}
+			return "dkg-net", verdict + " (" + sc + ")"
+		}
+		// only the honest run has a verdict with a wall-clock component (its liveness clause)
+		job.solo = p.kind == "honest"
+		jobs = append(jobs, job)
+	}
+	runC12Jobs(jobs, w)
 }
